@@ -381,3 +381,39 @@ func HarnessC19DetectorList() {
 		vndAssert(ok, "callers-detector-list-undisturbed")
 	}
 }
+
+// C19.longdup: long attribute lists with repeated keys (13..16 entries over 2
+// or 3 keys): the resource holds each key once with the value supplied last
+func HarnessC19LongDup() {
+	n := 13 + vndChoice(4)
+	pat := vndChoice(3)
+	keys := c19ManyKeys[:3]
+	var in []attribute.KeyValue
+	var last [3]int64
+	var has [3]bool
+	for i := 0; i < n; i++ {
+		var ki int
+		switch pat {
+		case 0:
+			ki = i % 2
+		case 1:
+			ki = i % 3
+		default:
+			ki = (i / 2) % 2
+		}
+		v := vndI64()
+		in = append(in, keys[ki].Int64(v))
+		last[ki], has[ki] = v, true
+	}
+	r := NewSchemaless(in...)
+	vndReach("built")
+	cnt := 0
+	for ki := range keys {
+		if has[ki] {
+			cnt++
+			v, ok := r.Set().Value(keys[ki])
+			vndAssert(ok && v.AsInt64() == last[ki], "attribute-list-last-value-wins")
+		}
+	}
+	vndAssert(r.Len() == cnt, "attribute-list-each-key-once")
+}
